@@ -68,4 +68,23 @@ def faceCorners (faces : List Face) (t : Nat) : List Nat := (List.range (faces.g
 /-- `mesh.boundary_vertices` (as the increasing list of the vertices that are on the border) -/
 def boundaryVertices (faces : List Face) (nV : Nat) : List Nat := (List.range nV).filter (isBorderVertex faces)
 
+/-- `enumerate(mesh.faces)` on a triangle mesh as `(id, p, q, r)` records, counting from `t` -/
+def faceIds : List (Nat × Nat × Nat) → Nat → List (Nat × Nat × Nat × Nat)
+  | [], _ => []
+  | f :: fs, t => (t, f.1, f.2.1, f.2.2) :: faceIds fs (t + 1)
+
+/-- `edge_to_faces(A,B) = (direct_face(A,B), direct_face(B,A))` -/
+def edgeFacesOpt (faces : List Face) (e : Nat × Nat) : Option Nat × Option Nat :=
+  ((directFace faces e.1 e.2).map (·.1), (directFace faces e.2 e.1).map (·.1))
+/-- `enumerate(mesh.edges)` with the two faces of each edge, as `(id, T1, T2)` records, counting from `k` -/
+def edgeIds (faces : List Face) : List (Nat × Nat) → Nat → List (Nat × Option Nat × Option Nat)
+  | [], _ => []
+  | e :: es, k => (k, (edgeFacesOpt faces e).1, (edgeFacesOpt faces e).2) :: edgeIds faces es (k + 1)
+
+/-- the row of `Nabla` contributed by the edge record `(id, T1, T2)`: entries `a` at `T1`, `b` at `T2` when both faces exist, nothing otherwise -/
+def pairRow {γ : Type} (a b : γ) (it : Nat × Option Nat × Option Nat) : List (Nat × List (Nat × γ)) :=
+  match it.2.1, it.2.2 with
+  | some t1, some t2 => [(it.1, [(t1, a), (t2, b)])]
+  | _, _ => []
+
 end Mouette.GeomSrc
